@@ -286,8 +286,9 @@ DenseSymmetricMatrixPair construct_neighborhood_preserving_eigenproblem(SparseWe
         }
     }
 
-    rhs += rhs.transpose().eval();
-    rhs /= 2;
+    // only the upper triangles have been accumulated: mirror them, the eigensolver reads the lower ones
+    lhs = DenseSymmetricMatrix(lhs.selfadjointView<Eigen::Upper>());
+    rhs = DenseSymmetricMatrix(rhs.selfadjointView<Eigen::Upper>());
 
     // UNRESTRICT_ALLOC;
 
@@ -329,8 +330,9 @@ DenseSymmetricMatrixPair construct_lltsa_eigenproblem(SparseWeightMatrix W, Rand
     }
     lhs.selfadjointView<Eigen::Upper>().rankUpdate(sum, -1. / (end - begin));
 
-    rhs += rhs.transpose().eval();
-    rhs /= 2;
+    // only the upper triangles have been accumulated: mirror them, the eigensolver reads the lower ones
+    lhs = DenseSymmetricMatrix(lhs.selfadjointView<Eigen::Upper>());
+    rhs = DenseSymmetricMatrix(rhs.selfadjointView<Eigen::Upper>());
 
     // UNRESTRICT_ALLOC;
 
